@@ -1709,6 +1709,8 @@ def check_enforcement(ck, R):
             val = fx.nodes_all([c for c in fx.calls("_validate_dependency") if A.norm(A.call_recv(c)) == "self"])
             for c in fx.calls():
                 rc, nm = A.call_recv(c), A.call_attr(c)
+                if isinstance(rc, ast.Name) and rc.id != "self" and fx.nodes(c):
+                    rc = fx.expand(rc, fx.nodes(c)[0])   # `base = super(...)` ... `base.call(...)`
                 via_super = nm in ENTRIES and isinstance(rc, ast.Call) and A.call_attr(rc) == "super"
                 via_self = nm in ENTRIES and isinstance(rc, ast.Name) and rc.id == "self"
                 if not (via_super or via_self or nm in RUN) or not fx.nodes(c):
@@ -2107,23 +2109,84 @@ def check_determinism_taint(ck, R):
     fnm = ck.repo.try_func(CH + ".NonMementoFunctionHashRule._function_name")
     if fnm is not None:
         f3 = FA(ck, fnm)
-        # decided on PATH CONDITIONS: the statements that put the symbol into the name are executed whenever the
-        # qualified name carries one of the two markers (whatever the spelling of the test; unconditionally is fine too)
+        # decided on PATH CLASSES: on every path to a return, and for every way a conditional expression on it can come out, the
+        # returned name contains the symbol unless the path has established that the qualified name carries neither marker
         sym = f3.fi.params[1] if len(f3.fi.params) > 1 else "symbol"
-        appends = [s_ for s_ in f3.stmts((ast.AugAssign, ast.Assign, ast.Return)) if getattr(s_, "value", None) is not None and sym in A.names_in(s_.value) and f3.nodes(s_)]
-        have = set()
-        for s_ in appends:
-            have |= f3.conditions(s_) or set()
-        qn = None
-        for x in A.walk_body(f3.node):
-            if isinstance(x, ast.Attribute) and x.attr == "__qualname__":
-                qn = A.norm(x)
-        okm = False
-        if appends and qn is not None:
-            from .keys import dnf_compare
-            want = {frozenset({("'<lambda>' in " + qn, True)}), frozenset({("'<locals>' in " + qn, True)})}
-            r_ = dnf_compare(want, have)
-            okm = bool(r_) and r_[0]
+        MARKERS = {"<lambda>", "<locals>"}
+        p3 = _exit_paths(f3)
+        ck.need(p3 is not None, "_function_name: too many paths")
+
+        def absent(conj):
+            """the markers a conjunction of literals says are NOT in the qualified name"""
+            out_ = set()
+            for (txt, pol) in conj:
+                if pol:
+                    continue
+                e_ = _parse_lit(txt)
+                if isinstance(e_, ast.Compare) and len(e_.ops) == 1 and isinstance(e_.ops[0], ast.In) and A.const_str(e_.left) in MARKERS \
+                        and A.norm(e_.comparators[0]).endswith("__qualname__"):
+                    out_.add(A.const_str(e_.left))
+                if isinstance(e_, ast.Call) and A.norm(e_.func) == "any" and len(e_.args) == 1 and isinstance(e_.args[0], (ast.GeneratorExp, ast.ListComp)) \
+                        and len(e_.args[0].generators) == 1 and not e_.args[0].generators[0].ifs:
+                    g_, el_ = e_.args[0].generators[0], e_.args[0].elt
+                    if isinstance(g_.iter, (ast.Tuple, ast.List, ast.Set)) and isinstance(g_.target, ast.Name) and isinstance(el_, ast.Compare) and len(el_.ops) == 1 \
+                            and isinstance(el_.ops[0], ast.In) and A.norm(el_.left) == g_.target.id and A.norm(el_.comparators[0]).endswith("__qualname__"):
+                        out_ |= {A.const_str(x) for x in g_.iter.elts if A.const_str(x)}
+            return out_
+
+        def ways(e_, pth, idx, depth=8):
+            """[(extra literals, does the symbol flow in)] for the value of `e_` evaluated at position idx of the path"""
+            nid = pth[idx]
+            if depth <= 0:
+                return [([], sym in A.names_in(e_))]
+            if isinstance(e_, ast.IfExp):
+                out_ = []
+                for pol, arm in ((True, e_.body), (False, e_.orelse)):
+                    for alt in f3._alts(e_.test, nid, pol):
+                        out_ += [(alt + l_, h_) for (l_, h_) in ways(arm, pth, idx, depth - 1)]
+                return out_
+            if isinstance(e_, ast.Name):
+                if not isinstance(e_.ctx, ast.Load):
+                    return [([], False)]
+                for k in range(idx - 1, -1, -1):
+                    ds = [d for d in f3.df.gen.get(pth[k], []) if d.name == e_.id]
+                    if not ds:
+                        continue
+                    d = ds[0]
+                    if d.value is None:
+                        return [([], False)]
+                    cur = ways(d.value, pth, k, depth - 1)
+                    if d.kind == "aug":
+                        prev = ways(e_, pth, k, depth - 1)
+                        return [(l1 + l2, h1 or h2) for (l1, h1) in prev for (l2, h2) in cur]
+                    return cur
+                return [([], e_.id == sym)]
+            out_ = [([], False)]
+            for ch in ast.iter_child_nodes(e_):
+                if isinstance(ch, ast.expr) and any(isinstance(x, (ast.Name, ast.IfExp)) for x in ast.walk(ch)):
+                    sub = ways(ch, pth, idx, depth - 1)
+                    out_ = [(l1 + l2, h1 or h2) for (l1, h1) in out_ for (l2, h2) in sub][:64]
+                elif isinstance(ch, ast.keyword) or isinstance(ch, ast.FormattedValue):
+                    sub = ways(ch.value, pth, idx, depth - 1)
+                    out_ = [(l1 + l2, h1 or h2) for (l1, h1) in out_ for (l2, h2) in sub][:64]
+            return out_
+
+        okm = bool(p3)
+        n_with = 0
+        for (pth, lits) in p3:
+            ridx = next((k for k in range(len(pth) - 1, -1, -1) if isinstance(f3.cfg.node(pth[k]).ast, ast.Return)), None)
+            if ridx is None or f3.cfg.node(pth[ridx]).ast.value is None:
+                okm = False
+                continue
+            for (extra, has_sym) in ways(f3.cfg.node(pth[ridx]).ast.value, pth, ridx):
+                conj = dict(lits)
+                if any(conj.setdefault(t, p_) != p_ for (t, p_) in extra):
+                    continue   # contradicts the path
+                if has_sym:
+                    n_with += 1
+                elif not MARKERS <= absent(conj.items()):
+                    okm = False
+        okm = okm and n_with > 0
         ck.ob(R, f3.key(None, "non-unique-qualnames"), okm, "the symbol is appended for every function whose qualified name is not unique (<lambda>, <locals>)" if okm else
               "the symbol is appended to the rule key only for some non-unique qualified names: two closures made by one factory (or two lambdas) "
               "used by one function still share a key, so the version depends on the hash seed", f3.where())
@@ -2928,8 +2991,13 @@ def check_every_symbol_watched(ck, R):
     v = FA(ck, CH + ".HashRule._visit_dependency")
     adds = v.nodes_all([c for (c, _el) in _set_additions(v, "result")] + v.calls("collect_transitive_dependencies"))
     # exits that are allowed to add nothing: `if not hasattr(src_fn, '__globals__'): return`
+    def about_globals(if_):
+        """is the test of this `if` about the function having a globals table (spelt on the spot or through a local)?"""
+        ns_ = v.nodes(if_.test)
+        return "__globals__" in A.norm(if_.test) or (bool(ns_) and "__globals__" in v.xnorm(if_.test, ns_[0]))
+
     allowed = [n.id for n in v.cfg.nodes if n.kind == "stmt" and isinstance(n.ast, ast.Return) and v.enclosing(n.ast, ast.If) is not None
-               and "__globals__" in A.norm(v.enclosing(n.ast, ast.If).test)]
+               and about_globals(v.enclosing(n.ast, ast.If))]
     p = v.cfg.path(v.cfg.entry, v.cfg.exit, removed=set(adds) | set(allowed))
     ok = p is None
     ck.ob(R, v.key(None, "every-symbol-watched"), ok, "every exit adds a rule for the symbol" if ok else
@@ -3072,7 +3140,8 @@ def _none_for_missing(node):
             nones.append(x)
         if isinstance(x, ast.Call) and A.call_attr(x) == "getattr" and len(x.args) == 3 and A.is_none(x.args[2]):
             nones.append(x)
-        if isinstance(x, ast.Call) and A.call_attr(x) == "get" and "global_table" in A.norm(A.call_recv(x)) and (len(x.args) == 1 or A.is_none(x.args[1])):
+        if isinstance(x, ast.Call) and A.call_attr(x) == "get" and isinstance(A.call_recv(x), ast.Name) and not x.keywords \
+                and (len(x.args) == 1 or (len(x.args) == 2 and A.is_none(x.args[1]))):
             nones.append(x)
     return nones
 
@@ -3132,8 +3201,7 @@ def check_resolver_closures(ck, R):
                     for (e, a_) in _alternatives(v, arg, un):
                         if isinstance(e, ast.Call) and e is not arg and _closure_factory(ck, v, e) is not None:
                             factories.setdefault(id(e), (e, a_))
-                        if isinstance(e, ast.Call) and A.call_attr(e) == "partial" and e.args and isinstance(e.args[0], ast.Name) \
-                                and e.args[0].id in ck.repo.module(CH).functions and not v.df.is_local(e.args[0].id):
+                        if isinstance(e, ast.Call) and A.call_attr(e) == "partial" and e.args and not _closures_denoted(v, e.args[0], a_):
                             partials.setdefault(id(e), (e, a_))
                     if isinstance(arg, ast.Call) and _closure_factory(ck, v, arg) is not None:
                         factories.setdefault(id(arg), (arg, un))
@@ -3141,6 +3209,13 @@ def check_resolver_closures(ck, R):
         derived = set()
         changed = True
         assigns = [(s, t.id) for s in v.stmts(ast.Assign) for t in s.targets if isinstance(t, ast.Name)]
+
+        def reads_globals(e):
+            return any((isinstance(x, ast.Attribute) and x.attr == "__globals__") or
+                       (isinstance(x, ast.Call) and A.call_attr(x) == "getattr" and len(x.args) >= 2 and A.const_str(x.args[1]) == "__globals__") for x in ast.walk(e))
+
+        # the locals that hold the globals table of the function (the ROOT every resolution starts from), whatever they are called
+        tables = {"global_table"} | {name for (s_, name) in assigns if reads_globals(s_.value)}
 
         def calls_resolver(n, at):
             if not isinstance(n.func, ast.Name):
@@ -3157,11 +3232,13 @@ def check_resolver_closures(ck, R):
                 val = s.value
                 is_eval = False
                 for n in ast.walk(val):
-                    if isinstance(n, ast.Call) and (A.call_attr(n) in ("getattr",) or (isinstance(n.func, ast.Name) and n.func.id.startswith("resolver")) or A.call_attr(n) == "memento_fn_resolver"):
+                    if isinstance(n, ast.Call) and ((A.call_attr(n) in ("getattr",) and not reads_globals(n)) or (isinstance(n.func, ast.Name) and n.func.id.startswith("resolver")) or A.call_attr(n) == "memento_fn_resolver"):
                         is_eval = True
                     if isinstance(n, ast.Call) and calls_resolver(n, v.nodes(s)[0]):
                         is_eval = True
-                    if isinstance(n, ast.Subscript) and (A.norm(n.value) == "global_table" or v.xnorm(n.value, v.nodes(s)[0]).endswith(".__globals__")):
+                    if isinstance(n, ast.Subscript) and (A.norm(n.value) in tables or v.xnorm(n.value, v.nodes(s)[0]).endswith(".__globals__")):
+                        is_eval = True
+                    if isinstance(n, ast.Call) and A.call_attr(n) == "get" and isinstance(A.call_recv(n), ast.Name) and A.call_recv(n).id in tables:
                         is_eval = True
                     if isinstance(n, ast.Name) and n.id in derived:
                         is_eval = True
@@ -3231,15 +3308,18 @@ def check_resolver_closures(ck, R):
         # must not be an object obtained by evaluating the chain
         for (pc, pat) in sorted(partials.values(), key=lambda f_: getattr(f_[0], "lineno", 0)):
             n_res += 1
+            pname = A.norm(pc.args[0])
+            where_ = "loop" if v.enclosing(pc, ast.For) is not None else "top"
             bad = sorted({n_.id for a_ in list(pc.args[1:]) + [k.value for k in pc.keywords] for n_ in ast.walk(a_) if isinstance(n_, ast.Name)} & derived)
-            ck.ob(R, "%s::partial %s@%s" % (v.qual, pc.args[0].id, "loop" if v.enclosing(pc, ast.For) is not None else "top"), not bad,
+            ck.ob(R, "%s::partial %s@%s" % (v.qual, pname, where_), not bad,
                   "resolver re-resolves from the global table" if not bad else
                   "the resolver `%s` is bound to %s, an object obtained while evaluating the chain: when an intermediate object is replaced "
                   "(class re-executed, module attribute rebound) the rule keeps looking at the old object and did_change never fires" % (A.short(pc, 50), bad), A.loc(v.fi, pc))
-            pf = ck.repo.module(CH).functions[pc.args[0].id]
-            nones = _none_for_missing(pf.node)
-            ck.ob(R, "%s::partial %s@%s::missing-is-not-none" % (v.qual, pc.args[0].id, "loop" if v.enclosing(pc, ast.For) is not None else "top"), not nones,
-                  "a missing name resolves to a sentinel of its own" if not nones else NONE_MSG % A.short(nones[0], 60), A.loc(pf, nones[0] if nones else pf.node))
+            pf = ck.repo.module(CH).functions.get(pname) if isinstance(pc.args[0], ast.Name) and not v.df.is_local(pname) else None
+            if pf is not None:
+                nones = _none_for_missing(pf.node)
+                ck.ob(R, "%s::partial %s@%s::missing-is-not-none" % (v.qual, pname, where_), not nones,
+                      "a missing name resolves to a sentinel of its own" if not nones else NONE_MSG % A.short(nones[0], 60), A.loc(pf, nones[0] if nones else pf.node))
         # rules that watch for a symbol to appear must also look it up from the root each time
         for c in v.calls("UndefinedSymbolHashRule"):
             base = c.args[0] if c.args else A.kwarg(c, "ref")
@@ -3724,15 +3804,17 @@ def check_names_resolved_where_defined(ck, R):
     ck.rule(R, "referenced names are resolved in the globals of the function whose source was read (wrappers looked through)", 1)
     v = FA(ck, CH + ".HashRule._visit_dependency")
     src = v.fi.params[1] if len(v.fi.params) > 1 else "src_fn"
-    reads = [n for n in ast.walk(v.node) if isinstance(n, ast.Attribute) and n.attr == "__globals__" and isinstance(n.ctx, ast.Load)]
-    reads = [n for n in reads if v.enclosing(n, ast.Assign) is not None or v.enclosing(n, ast.Return) is not None]
+    reads = [n for n in ast.walk(v.node) if (isinstance(n, ast.Attribute) and n.attr == "__globals__" and isinstance(n.ctx, ast.Load))
+             or (isinstance(n, ast.Call) and A.call_attr(n) == "getattr" and isinstance(n.func, ast.Name) and len(n.args) >= 2 and A.const_str(n.args[1]) == "__globals__")]
+    reads = [n for n in reads if v.enclosing(n, (ast.Assign, ast.AnnAssign)) is not None or v.enclosing(n, ast.Return) is not None]
     ck.need(bool(reads), "_visit_dependency: no read of __globals__ found")
     for n in reads:
-        st = v.enclosing(n, ast.Assign) or v.enclosing(n, ast.Return)
+        st = v.enclosing(n, (ast.Assign, ast.AnnAssign)) or v.enclosing(n, ast.Return)
         at = v.nodes(st)[0] if v.nodes(st) else None
         if at is None:
             continue
-        u = _chain_through_unwrap(v, n, at)
+        chain = n if isinstance(n, ast.Attribute) else ast.copy_location(ast.Attribute(value=n.args[0], attr="__globals__", ctx=ast.Load()), n)
+        u = _chain_through_unwrap(v, chain, at)
         ok = u is not None and u[1] == src
         ck.ob(R, v.key(None, "globals-of-the-function-read"), ok, "names are resolved in the globals of the wrapped function" if ok else
               "`%s` is read from the object as given: for a helper decorated by a functools.wraps decorator of another module that is the "
